@@ -532,12 +532,26 @@ def _length_tabulate(ctx, exact: bool = False) -> None:
     dates = [_dt.date(2021, 1, 31), _dt.date(2021, 3, 1), _dt.date(2020, 2, 29)]
     bad, n = [], 0
 
-    def pend(x):
-        """a stub standing for the pendulum DateTime / Date with the fields, tzinfo and fold of the native value x"""
+    # the class part of the pendulum-typed stubs: the analysed DateTime / Date (a helper method the endpoints are asked for is interpreted)
+    dmm, damm = pmod("datetime"), pmod("date")
+    dmeths = {**damm.methods_mro("Date"), **dmm.methods_mro("DateTime")}
+    dprops = {k for k, f in dmeths.items() if any(core.dotted(d) == "property" for d in f.decorator_list)}
+    foreign_ids: set[int] = set()       # tzinfo objects that stand for a tzinfo of the standard library carried by a DateTime (else: for a pendulum zone)
+    dfuncs = {**{st.name: st for st in dmm.top() if isinstance(st, ast.FunctionDef)},
+              "$globals": {**minieval.module_consts(dmm), "Timezone": minieval.ClassStub(_new=None, _isa=lambda v: isinstance(v, _dt.tzinfo) and id(v) not in foreign_ids),
+                           "FixedTimezone": minieval.ClassStub(_new=None, _isa=lambda v: False), "UTC": utc, "datetime": minieval.std_module("datetime"),
+                           "ValueError": ValueError, "TypeError": TypeError}}
+
+    def pend(x, foreign=False):
+        """a stub standing for the pendulum DateTime / Date with the fields, tzinfo and fold of the native value x (`foreign`: its tzinfo is one
+        of the standard library, for which `.tz` / `.timezone` answer None)"""
         if isinstance(x, _dt.datetime):
-            return minieval.Stub(_types=(_dt.datetime,), _pend="DateTime", _native=x, _eqkey=x, year=x.year, month=x.month, day=x.day, hour=x.hour, minute=x.minute,
-                                 second=x.second, microsecond=x.microsecond, tzinfo=x.tzinfo, fold=x.fold, utcoffset=x.utcoffset, astimezone=x.astimezone, tz=x.tzinfo,
-                                 timezone=x.tzinfo, timezone_name=(x.tzinfo.tzname(None) if x.tzinfo is not None else None), is_local=lambda: False,
+            zone = None if foreign else x.tzinfo
+            if foreign and x.tzinfo is not None:
+                foreign_ids.add(id(x.tzinfo))
+            return minieval.Obj(_methods=dmeths, _props=dprops, _natives={}, _ctor=None, _funcs=dfuncs, _types=(_dt.datetime,), _pend="DateTime", _native=x, _eqkey=x, year=x.year, month=x.month, day=x.day, hour=x.hour, minute=x.minute,
+                                 second=x.second, microsecond=x.microsecond, tzinfo=x.tzinfo, fold=x.fold, utcoffset=x.utcoffset, astimezone=x.astimezone, tz=zone,
+                                 timezone=zone, timezone_name=(zone.tzname(None) if zone is not None else None), is_local=lambda: False,
                                  offset=(None if x.utcoffset() is None else int(x.utcoffset().total_seconds())), timestamp=x.timestamp, date=x.date, time=x.time, timetz=x.timetz,
                                  toordinal=x.toordinal, weekday=x.weekday, isoformat=x.isoformat)
         return minieval.Stub(_types=(_dt.date,), _pend="Date", _native=x, _eqkey=x, year=x.year, month=x.month, day=x.day)
@@ -545,7 +559,9 @@ def _length_tabulate(ctx, exact: bool = False) -> None:
         funcs = {st.name: st for st in m.top() if isinstance(st, ast.FunctionDef)}
         if exact:
             aw = [x for x in aw if x.tzinfo is utc]
-        for group, wrap in ((aw, None), (nv, None), (dates, None), (aw, pend), (nv, pend), (dates, pend)):
+        # (the last group: DateTimes that carry a tzinfo of the standard library - what astimezone(ZoneInfo(..)) returns)
+        for group, wrap in ((aw, None), (nv, None), (dates, None), (aw, pend), (nv, pend), (dates, pend), (aw[:7], lambda x: pend(x, True))):
+            foreign_ids.clear()
             for a0 in group:
                 for b0 in group:
                     a, b = (a0, b0) if wrap is None else (wrap(a0), wrap(b0))
